@@ -95,3 +95,159 @@ E('C20', 'zero-ne', S1, """        if modulo == 0:
         else:
             raise ValueError("modulo must not be zero")
 """)
+
+# ----------------------------------------------------------------------------- C17
+V('C17', 'raw-output', S2, "        self.set_output(value)\n        return True\n\n    _restore_state = init_from_value",
+  "        self.set_output(_data.get('raw', value))\n        return True\n\n    _restore_state = init_from_value", 'R17.2')
+V('C17', 'validate-discarded', S2, """        try:
+            value = self._validate(value)
+        except ValueError as err:
+            self.log_warning("%s", err)
+            return False
+        self.set_output(value)""", """        try:
+            self._validate(value)
+        except ValueError as err:
+            self.log_warning("%s", err)
+            return False
+        self.set_output(value)""", 'R17.2')
+V('C17', 'schema-first', S2, """        if self._allowed is not None and value not in self._allowed:
+            raise ValueError(f"Validation error: {value!r} is not among allowed values")
+        if self._check is not None and not self._check(value):
+            raise ValueError(f"Validation function rejected value {value!r}")
+        if self._schema is not None:
+            try:
+                value = self._schema(value)
+            except Exception as err:
+                raise ValueError(
+                    f"Validation schema rejected value {value!r} with error: {err}") from None
+        return value""", """        if self._schema is not None:
+            try:
+                value = self._schema(value)
+            except Exception as err:
+                raise ValueError(
+                    f"Validation schema rejected value {value!r} with error: {err}") from None
+        if self._allowed is not None and value not in self._allowed:
+            raise ValueError(f"Validation error: {value!r} is not among allowed values")
+        if self._check is not None and not self._check(value):
+            raise ValueError(f"Validation function rejected value {value!r}")
+        return value""", 'R17.1')
+V('C17', 'check-ignored', S2, "if self._check is not None and not self._check(value):",
+  "if self._check is not None and self._check(value) is False:", 'R17.1')
+V('C17', 'allowed-only-without-check', S2, "if self._allowed is not None and value not in self._allowed:",
+  "if self._allowed is not None and self._check is None and value not in self._allowed:", 'R17.1')
+V('C17', 'schema-result-dropped', S2, "                value = self._schema(value)\n",
+  "                self._schema(value)\n", 'R17.1')
+V('C17', 'reject-still-sets', S2, """        except ValueError as err:
+            self.log_warning("%s", err)
+            return False
+        self.set_output(value)
+        return True""", """        except ValueError as err:
+            self.log_warning("%s", err)
+        self.set_output(value)
+        return True""", 'R17.2')
+V('C17', 'restore-direct', S2, "    _restore_state = init_from_value\n\n\nclass InputExp",
+  "    def _restore_state(self, value):\n        self.set_output(value)\n\n\nclass InputExp", 'R17.2')
+V('C17', 'initdef-unvalidated', S2, "        if self.initdef is not block.UNDEF:\n            self._validate(self.initdef)\n",
+  "        if self.initdef is not block.UNDEF and self._schema is None:\n            self._validate(self.initdef)\n", 'R17.2b')
+V('C17', 'condput-store-first', S2, """        value = data['value']
+        try:
+            value = self._validate(value)
+        except ValueError as err:
+            self.log_warning("%s", err)
+            return False
+        self.sdata['input'] = value
+        return True""", """        value = data['value']
+        self.sdata['input'] = value
+        try:
+            value = self._validate(value)
+        except ValueError as err:
+            self.log_warning("%s", err)
+            return False
+        return True""", 'R17.3')
+V('C17', 'expired-unvalidated', S2, "self._expired = self._validate(expired)", "self._expired = expired", 'R17.3')
+V('C17', 'iexp-restore-unvalidated', S2, "            sdata = {**istate[2], 'input': self._validate(istate[2]['input'])}\n            istate = [*istate[:2], sdata]\n",
+  "            sdata = {**istate[2]}\n            istate = [*istate[:2], sdata]\n", 'R17.3r')
+V('C17', 'iexp-initdef-unvalidated', S2, "self.sdata['input'] = self._validate(initdef)", "self.sdata['input'] = initdef", 'R17.3')
+E('C17', 'local-name', S2, """            value = self._validate(value)
+        except ValueError as err:
+            self.log_warning("%s", err)
+            return False
+        self.set_output(value)
+        return True""", """            validated = self._validate(value)
+        except ValueError as err:
+            self.log_warning("%s", err)
+            return False
+        self.set_output(validated)
+        return True""")
+E('C17', 'nested-ifs', S2, """        if self._check is not None and not self._check(value):
+            raise ValueError(f"Validation function rejected value {value!r}")""",
+  """        if self._check is not None:
+            if not self._check(value):
+                raise ValueError(f"Validation function rejected value {value!r}")""")
+E('C17', 'calc-output-ifstmt', S2, "        return self.sdata['input'] if self._state == 'valid' else self._expired\n",
+  "        if self._state == 'valid':\n            return self.sdata['input']\n        return self._expired\n")
+
+# ----------------------------------------------------------------------------- C14
+V('C14', 'gate-weakened', SIM, "return self._simtask is not None and self._error is None",
+  "return self._simtask is not None", 'R14.1')
+V('C14', 'gate-after-value', BLK, """        if not simulator.get_circuit().is_ready():
+            raise EdzedInvalidState("The circuit simulation is shutting down or not running")
+        if value is not UNDEF:
+            data['value'] = value
+""", """        if value is not UNDEF:
+            data['value'] = value
+            return self._dest.event(self._etype, **data)
+        if not simulator.get_circuit().is_ready():
+            raise EdzedInvalidState("The circuit simulation is shutting down or not running")
+""", 'R14.1')
+V('C14', 'gate-removed', BLK, """        if not simulator.get_circuit().is_ready():
+            raise EdzedInvalidState("The circuit simulation is shutting down or not running")
+        if value is not UNDEF:""", """        if value is not UNDEF:""", 'R14.1')
+V('C14', 'prefix-one-branch', BLK, """            if not source.startswith("_ext_"):
+                data['source'] = "_ext_" + source
+""", """            if not source.startswith("_ext_") and source:
+                data['source'] = "_ext_" + source
+""", 'R14.2')
+V('C14', 'prefix-typo', BLK, """                data['source'] = "_ext_" + source
+""", """                data['source'] = "_ext" + source
+""", 'R14.2')
+V('C14', 'default-source-raw', BLK, """self._source = source if source.startswith("_ext_") else "_ext_" + source""",
+  """self._source = source""", 'R14.2')
+V('C14', 'setdefault-source', BLK, "        data['source'] = source.name\n", "        data.setdefault('source', source.name)\n", 'R14.3')
+V('C14', 'source-after-filters', BLK, """        data['source'] = source.name
+        for efilter in self._filters:""", """        for efilter in self._filters:""", 'R14.3')
+V('C14', 'reserved-ext-name', TD, "name = '_cron_utc' if utc else '_cron_local'", "name = '_ext_cron_utc' if utc else '_cron_local'", 'R14.3')
+V('C14', 'underscore-allowed', BLK, "            if name.startswith('_') and not _reserved:\n", "            if name.startswith('__') and not _reserved:\n", 'R14.3')
+V('C14', 'value-always', BLK, "        if value is not UNDEF:\n            data['value'] = value\n        try:\n            source",
+  "        data['value'] = value\n        try:\n            source", 'R14.2b')
+V('C14', 'drops-item', BLK, "        return self._dest.event(self._etype, **data)\n\n    def __str__(self):\n        return f\"<{type(self).__name__} dest='{self._dest.name}'",
+  "        data.pop('trigger', None)\n        return self._dest.event(self._etype, **data)\n\n    def __str__(self):\n        return f\"<{type(self).__name__} dest='{self._dest.name}'", 'R14.2b')
+V('C14', 'returns-none', BLK, "        return self._dest.event(self._etype, **data)\n\n    def __str__(self):\n        return f\"<{type(self).__name__} dest='{self._dest.name}'",
+  "        self._dest.event(self._etype, **data)\n\n    def __str__(self):\n        return f\"<{type(self).__name__} dest='{self._dest.name}'", 'R14.1')
+E('C14', 'gate-local', BLK, """        if not simulator.get_circuit().is_ready():
+            raise EdzedInvalidState("The circuit simulation is shutting down or not running")
+        if value is not UNDEF:""", """        if simulator.get_circuit().is_ready():
+            pass
+        else:
+            raise EdzedInvalidState("The circuit simulation is shutting down or not running")
+        if value is not UNDEF:""")
+E('C14', 'source-in-test', BLK, """        try:
+            source = data['source']
+        except KeyError:
+            data['source'] = self._source
+        else:
+            if not isinstance(source, str):
+                raise TypeError(f"Event source must be a string, but got {source!r}")
+            if not source.startswith("_ext_"):
+                data['source'] = "_ext_" + source
+""", """        if 'source' not in data:
+            data['source'] = self._source
+        else:
+            source = data['source']
+            if not isinstance(source, str):
+                raise TypeError(f"Event source must be a string, but got {source!r}")
+            if not source.startswith("_ext_"):
+                data['source'] = "_ext_" + source
+""")
+E('C14', 'is-ready-order', SIM, "return self._simtask is not None and self._error is None",
+  "return self._error is None and self._simtask is not None")
